@@ -32,8 +32,14 @@ where
     })?;
 
     if len > 0 {
-        let mut aux = vec![0; len];
-        reader.read_exact(&mut aux).await?;
+        // The length is not yet validated, i.e., the buffer grows as data is read.
+        let mut aux = Vec::new();
+        let limit =
+            u64::try_from(len).map_err(|e| io::Error::new(io::ErrorKind::InvalidData, e))?;
+
+        if (&mut *reader).take(limit).read_to_end(&mut aux).await? < len {
+            return Err(io::Error::from(io::ErrorKind::UnexpectedEof));
+        }
 
         let mut aux_reader = &aux[..];
         read_tabix_header(&mut aux_reader)
